@@ -4,6 +4,7 @@ import (
 	"encoding/json"
 	"fmt"
 	"os"
+	"time"
 
 	"verif/harness/c04/cx"
 	"verif/harness/hx"
@@ -34,42 +35,34 @@ func run(cfg *hx.RunCfg) (*hx.Result, error) {
 		cx.Record(res, cx.Job{P: p, Bucket: "replay", NoModel: cx.OutsideModel(p)}, o, cx.CheckC04)
 		return res, nil
 	}
-	n := cfg.N
-	if n == 0 {
-		n = 72
+	t := cx.Tier{Seed: cfg.Seed, N: cfg.N, Check: cx.CheckC04, Printer: cx.CoqCase}
+	if t.N == 0 {
+		t.N = 72
 		if cfg.Tier == "thorough" {
-			n = 1500
+			t.N, t.Budget = 1500, 7*time.Minute // as many of the 1500 as fit; the i-th program depends on (seed, i) only
 		}
 	}
-	r := hx.NewRng(hx.NewRng(cfg.Seed).U64()) // the streams of seeds k and k+1 are shifted copies otherwise
-	var jobs []cx.Job
 	for _, p := range cx.CorpusC04() {
-		jobs = append(jobs, cx.Job{P: p, Bucket: "corpus", NoModel: cx.OutsideModel(p)})
+		t.Fixed = append(t.Fixed, cx.Job{P: p, Bucket: "corpus", NoModel: cx.OutsideModel(p)})
+	}
+	if cfg.Tier == "thorough" {
+		t.Fixed = append(t.Fixed, cx.ExhaustiveC04()...)
 	}
 	shapes := []string{"leaf", "leaf", "removed", "mixed", "mixed", "root"}
-	for i := 0; i < n; i++ {
+	t.Gen = func(r *hx.Rng, i int) cx.Job {
 		sh := shapes[i%len(shapes)]
 		p := cx.GenDisjoint(r, sh)
-		if len(p.Init) == 0 {
-			if len(p.Schedule) > 30 {
-				p.Schedule = p.Schedule[:30] // long lock-step schedules would eat the 4 s themselves
-			}
+		if len(p.Init) == 0 && len(p.Schedule) > 30 {
+			p.Schedule = p.Schedule[:30]
 		}
 		if i%10 == 9 { // unscheduled goroutines
 			p.Free, p.Schedule = true, nil
 			sh += "-free"
 		}
-		// first-root programs from the random stream are judged by the oracle only: the model's account of
-		// the root phase (Corr/C04.v root_check) is validated on the deterministic corpus schedules
-		jobs = append(jobs, cx.Job{P: p, Bucket: sh, NoModel: len(p.Init) == 0})
+		// first-root programs from the random stream are judged by the oracle only: the model's account of the
+		// root phase (Corr/C04.v root_check) is checked on the corpus and on the exhaustive first-root family
+		return cx.Job{P: p, Bucket: sh, NoModel: len(p.Init) == 0 || cx.OutsideModel(p)}
 	}
-	if cfg.Tier == "thorough" {
-		jobs = append(jobs, cx.ExhaustiveC04()...)
-	}
-	outs := cx.RunAll(jobs, 10, true)
-	for i, j := range jobs {
-		cx.Record(res, j, outs[i], cx.CheckC04)
-	}
-	os.RemoveAll(cx.Scratch)
+	cx.RunTier(res, t)
 	return res, nil
 }
